@@ -19,6 +19,9 @@ pub struct Ctx {
     pub repo: String,
     /// optional sub-selection of a monitor's phases (for debugging / targeted reruns)
     pub only: Option<String>,
+    /// phases left out (the driver re-runs a monitor without its huge-period phase when that phase got
+    /// the process killed, so that the other phases still report)
+    pub skip: Option<String>,
 }
 
 impl Ctx {
@@ -33,6 +36,11 @@ impl Ctx {
         }
     }
     pub fn phase_enabled(&self, name: &str) -> bool {
+        if let Some(s) = &self.skip {
+            if s.split(',').any(|x| x == name) {
+                return false;
+            }
+        }
         match &self.only {
             None => true,
             Some(s) => s.split(',').any(|x| x == name),
